@@ -273,7 +273,12 @@ func applyDamage(img []byte, lay *layout, s Shape, d Damage, rng *rand.Rand) ([]
 		old := le.Uint32(img[bo() : bo()+4])
 		nv := old
 		if d.V == "big" {
-			bigs := []uint32{0xFFFFFFFF, 0x80000000 | old, 0x7FFFFFFF, 0x40000000, 1 << 28, uint32(1<<24) + uint32(rng.Intn(1<<24)), old | 1<<27}
+			// (allocating the forged size costs the reader seconds per GiB under memory pressure: mostly sizes up to
+			//  512 MiB here, the full 4 GiB only now and then in the thorough tier)
+			bigs := []uint32{1 << 28, uint32(1<<28) + uint32(rng.Intn(1<<27)), 0x1FFFFFFF, 1 << 29, old | 1<<28}
+			if os.Getenv("VERIF_TIER") == "thorough" && rng.Intn(4) == 0 {
+				bigs = []uint32{0xFFFFFFFF, 0x80000000 | old, 0x7FFFFFFF}
+			}
 			nv = bigs[rng.Intn(len(bigs))]
 		} else {
 			for nv == old {
@@ -332,6 +337,9 @@ func applyDamage(img []byte, lay *layout, s Shape, d Damage, rng *rand.Rand) ([]
 			}
 		default:
 			rng.Read(t)
+			if !(os.Getenv("VERIF_TIER") == "thorough" && rng.Intn(8) == 0) {
+				t[3] &= 0x1F // the would-be CompressedSize stays below 512 MiB (see above)
+			}
 		}
 		return img, -1, string(t)
 	case "garbage":
@@ -361,6 +369,9 @@ func concretise(lay *layout, c Case, rng *rand.Rand, variant int) []byte {
 		n := []int{0, 3, 64, 80, 100, 1000, 5000}[rng.Intn(7)]
 		g := make([]byte, n)
 		rng.Read(g)
+		if n >= 68 && !(os.Getenv("VERIF_TIER") == "thorough" && rng.Intn(8) == 0) {
+			g[67] &= 0x1F // bytes 64..67 are the first would-be CompressedSize behind a 64-byte header
+		}
 		switch c.Raw {
 		case 2: // a valid header in front of random bytes
 			if n >= v2.FileHeaderSize {
@@ -721,6 +732,18 @@ func main() {
 		os.MkdirAll(dir, 0o755)
 		isolate.Worker(from, stripe, stripes, len(list), os.Args[3], func(i int) (out any) {
 			c := cs[list[i].c]
+			// diagnostics for cases that take very long: a goroutine dump after 40 s
+			doneCh := make(chan struct{})
+			defer close(doneCh)
+			go func() {
+				select {
+				case <-doneCh:
+				case <-time.After(40 * time.Second):
+					buf := make([]byte, 1<<20)
+					n := runtime.Stack(buf, true)
+					os.WriteFile(filepath.Join(os.Getenv("VERIF_WORK"), fmt.Sprintf("slow-case-%d-%d.txt", c.ID, list[i].v)), buf[:n], 0o644)
+				}
+			}()
 			defer func() {
 				// (the code under test runs under its own recover inside observe: a panic arriving here is the driver's)
 				if r := recover(); r != nil {
